@@ -283,6 +283,12 @@ func monC02(w *World) {
 			if s := relabelSig(qc.Signature(), w.plan.N); s != nil {
 				muts["swapped-ids"] = hotstuff.NewQuorumCert(s, qc.View(), qc.BlockHash())
 			}
+			for k := 2; k < q; k++ {
+				// fewer than a quorum of distinct signers, repeated in rotation: a b a b ..., a b c a ...
+				if r := rotateSig(qc.Signature(), k, q); r != nil {
+					muts[fmt.Sprintf("rotated-%d-signers", k)] = hotstuff.NewQuorumCert(r, qc.View(), qc.BlockHash())
+				}
+			}
 			if s := truncSig(qc.Signature(), qc.Signature().Participants().Len()-1); s != nil {
 				if r := repeatSig(s, q); r != nil {
 					muts["repeated-signer"] = hotstuff.NewQuorumCert(r, qc.View(), qc.BlockHash())
@@ -316,6 +322,11 @@ func monC02(w *World) {
 			if s := truncSig(tc.Signature(), tc.Signature().Participants().Len()-1); s != nil {
 				if r := repeatSig(s, q); r != nil {
 					muts["repeated-signer"] = hotstuff.NewTimeoutCert(r, tc.View())
+				}
+			}
+			for k := 2; k < q; k++ {
+				if r := rotateSig(tc.Signature(), k, q); r != nil {
+					muts[fmt.Sprintf("rotated-%d-signers", k)] = hotstuff.NewTimeoutCert(r, tc.View())
 				}
 			}
 			for _, name := range sortedKeys(muts) {
